@@ -102,6 +102,12 @@ def run(ctx, replay=None):
                      + special(c02.render(h, info[name], choices), rng) + matrix(ctx, rng, name, flags, thorough, k))
             k += 1
             behs.append("\n".join(lines) + "\n")
+    # (1b) userdata whose content has XML-special characters, in dedicated behaviours (known finding with the nolibxml backend)
+    for name, desc in fams[:1]:
+        for me in ("buffer", "file"):
+            p1 = ctx.path("x-udspecial-%s.xml" % me)
+            behs.append("\n".join(["reset 2", "option stores 1", "option udspecial 1", "env HWLOC_XML_EXPORT_SUPPORT 0", "init 0", "synthetic 0 " + desc, "load 0",
+                                   "xml_export 0 %s %s 0 1" % (me, p1), "xml_import 1 %s %s 0 1 1" % (me, p1), "xml_export 1 %s %s.again 0 1" % (me, p1), "destroy 1"]) + "\n")
     # (2) every bundled input through the matrix
     srcs = corpus.xml_sources() + corpus.extract_snapshots(ctx.path("corpus"))
     srcs.append({"id": "live", "kind": "live", "env": {}})
